@@ -19,6 +19,7 @@ GENERATORS = {
     "Refresh_gen": "translator.gen_refresh",
     "SymAgg_gen": "translator.gen_symagg",
     "TimeDim_gen": "translator.gen_timedim",
+    "Interp_gen": "translator.gen_interp",
 }
 
 
